@@ -392,7 +392,7 @@ func c19GenOntTx(t *rapid.T, maxSigs int) *c19Gen {
 	return g
 }
 
-const c19Rule = "signed deploy/invoke(neo,wasm) txs (payload lengths at varuint and PUSHDATA edges, 0..4 sig sets single or m-of-n over the key zoo) and EIP-155 txs signed with secp256k1 zoo keys; byte mutants (set/flip/insert/delete/truncate/append, non-minimal varuint substitution at every length field, type byte swaps), signature-list edits (reorder/drop/duplicate/foreign), hand-built non-canonical RLP, sizes around MAX_TX_SIZE, structured arbitrary bytes; non-trivial = a mutant or edit that still decodes, a non-minimal length field, a size within 2 of the limit, or a valid tx with >=1 sig set whose sig list was edited; distinct = different bytes"
+const c19Rule = "signed deploy/invoke(neo,wasm) txs (payload lengths at varuint and PUSHDATA edges, 0..4 sig sets single or m-of-n over the key zoo) and EIP-155 txs signed with secp256k1 zoo keys; byte mutants (set/flip/insert/delete/truncate/append, non-minimal varuint substitution at every length field, type byte swaps), signature-list edits (reorder/drop/duplicate/foreign), hand-built non-canonical RLP, sizes around MAX_TX_SIZE, structured arbitrary bytes; non-trivial = a mutant or edit that still decodes, a non-minimal length field, a size within 2 of the limit, or a valid tx with >=1 sig set whose sig list was edited; held results: sequences of 2-8 transactions (built by IntoImmutable, decoded stand-alone or embedded, the unsigned content of an earlier one under an edited signature list, EIP-155 built and decoded) whose ToArray/Raw/Hash/SigHashForChain/GetSignatureAddresses/GetSig results and decoded fields are held to the end of the case next to private copies, optionally with joined goroutines, then re-read, recomputed, decoded again and checked against overwritten caller buffers; such a case is non-trivial when it holds >=2 different encodings; distinct = different bytes"
 
 // ---------------------------------------------------------------------------------------------
 
